@@ -41,6 +41,8 @@ pub struct Feat {
     pub publish: bool,
     /// `cardano::vote_delegation_certificate` blocks
     pub certificates: bool,
+    /// sums of up to 200 terms written out (deep IR)
+    pub long_chains: bool,
     /// `policy P = 0x..` used where a byte string is expected (datum field / AnyAsset policy)
     pub assign_policy_as_bytes: bool,
     /// argument pool: false = comfortable (amounts stay in range), true = boundary-heavy
@@ -90,6 +92,7 @@ impl Feat {
             witnesses: false,
             publish: true,
             certificates: true,
+            long_chains: true,
             assign_policy_as_bytes: true,
             boundary_args: false,
             mixed_case: true,
@@ -765,8 +768,23 @@ impl<'t, 'c> Gen<'t, 'c> {
             if deep { 0 } else { 4 },                   // sub
             if deep || !self.feat.neg { 0 } else { 1 }, // neg
             if deep { 0 } else { 1 },                   // paren
+            if depth > 1 || !self.feat.long_chains { 0 } else { 1 }, // long left-nested chain
         ];
         match self.t.weighted(&w) {
+            8 => {
+                // a long sum or difference written out term by term: as deep as the chain is long in the IR
+                let n = [5usize, 20, 50, 90, 120, 200][self.t.pick(6)];
+                self.mark("long_operator_chain");
+                if n >= 90 {
+                    self.mark("operator_chain_of_90_or_more");
+                }
+                let mut e = self.gen_asset_term(true, locals_upto);
+                for k in 0..n {
+                    let term = GExpr::Ada(Box::new(GExpr::Int(1 + (k % 7) as i64)));
+                    e = GExpr::Add(Box::new(e), Box::new(term));
+                }
+                e
+            }
             0 => self.gen_asset_term(true, locals_upto),
             1 => {
                 self.mark("input_as_value");
